@@ -409,22 +409,26 @@ def safety_driver(tr, header, top_index, buffers):
          "  const long long vals[] = {0, 1, 2, 9, 10, 127, 128, 255, 256, 1000, -1, -100};",
          "  for (long long x : vals) { VT y = static_cast<VT>(x); bool c = f.CouldWriteValue(y); bool w = f.TryToWrite(y); sink += c + w; if (f.Ok()) sink += static_cast<long long>(f.Read()); }",
          "}",
+         "static int cur_len = -1;",
          "static void mark(const char *what, int b) { ::std::printf(\"@ buffer=%d op=%s\\n\", b, what); ::std::fflush(stdout); }",
          "int main() {"]
     for bi, b in enumerate(buffers):
+        # every prefix length of the base content is exercised (exact-size allocations), so every
+        # field boundary is hit as an end of buffer
         arr = ", ".join(str(x) for x in b)
-        L.append("  { static const unsigned char init[] = {%s0}; const ::std::size_t n = %d;" % (arr + (", " if arr else ""), len(b)))
+        L.append("  { static const unsigned char init[] = {%s0}; const ::std::size_t full = %d;" % (arr + (", " if arr else ""), len(b)))
+        L.append("   for (::std::size_t n = 0; n <= full; ++n) {")
         L.append("    unsigned char *buf = static_cast<unsigned char *>(::std::malloc(n ? n : 1)); ::std::memcpy(buf, init, n);")
         L.append("    unsigned char *buf2 = static_cast<unsigned char *>(::std::malloc(n ? n : 1)); ::std::memcpy(buf2, init, n);")
         L.append("    auto v = %s(buf, n); auto w = %s(buf2, n);" % (name, name))
-        L.append('    mark("observe", %d); ::std::printf("B%d"); out(v.Ok() ? 1 : 0); dump_T%d(v); ::std::printf("\\n");' % (bi, bi, top_index))
+        L.append('    mark("observe", %d); ::std::printf("B%d len=%%d", (int)n); out(v.Ok() ? 1 : 0); dump_T%d(v); ::std::printf("\\n");' % (bi, bi, top_index))
         L.append('    mark("text", %d); { ::std::string t1 = ::emboss::WriteToString(v, ::emboss::TextOutputOptions().WithAllowPartialOutput(true));' % bi)
         L.append('      ::std::string t2 = ::emboss::WriteToString(v, ::emboss::TextOutputOptions().WithAllowPartialOutput(true).Multiline(true).WithComments(true).WithDigitGrouping(true).WithNumericBase(16));')
         L.append('      mark("update_from_text", %d); sink += ::emboss::UpdateFromText(w, t1); sink += ::emboss::UpdateFromText(w, t2); sink += ::emboss::UpdateFromText(w, "{ bogus: 1 }"); sink += ::emboss::UpdateFromText(w, "{"); }' % bi)
         L.append('    mark("copy_equals", %d); sink += w.TryToCopyFrom(v); if (v.Ok() && w.Ok()) { sink += v.Equals(w); sink += w.Equals(v); }' % bi)
         L.append('    mark("writes", %d); %s' % (bi, " ".join(writes)))
         L.append('    mark("observe_after_writes", %d); ::std::printf("A%d"); out(v.Ok() ? 1 : 0); dump_T%d(v); ::std::printf("\\n");' % (bi, bi, top_index))
-        L.append("    ::std::free(buf); ::std::free(buf2); }")
+        L.append("    ::std::free(buf); ::std::free(buf2); } }")
     L.append('  ::std::printf("DONE\\n"); return 0; }')
     return "\n".join(L) + "\n"
 
